@@ -21,8 +21,13 @@ pub struct Profile {
 
 pub fn gen_behaviour(rng: &mut Rng, p: &Profile, len: usize, id: u64) -> Value {
     let cap = *rng.pick(&p.caps);
-    let ttl = *rng.pick(&p.ttls);
-    let tti = *rng.pick(&p.ttis);
+    // lists of equal length are read as pairs (ttl[i], tti[i])
+    let (ttl, tti) = if p.ttls.len() == p.ttis.len() && p.ttls.len() > 4 {
+        let i = rng.below(p.ttls.len() as u64) as usize;
+        (p.ttls[i], p.ttis[i])
+    } else {
+        (*rng.pick(&p.ttls), *rng.pick(&p.ttis))
+    };
     let weigher = !p.weights.is_empty() && rng.chance(2, 3);
     let hasher = *rng.pick(&p.hashers);
     let cfg = json!({"kind": p.kind, "cap": cap, "ttl": ttl, "tti": tti, "weigher": weigher,
@@ -69,7 +74,7 @@ pub fn gen_behaviour(rng: &mut Rng, p: &Profile, len: usize, id: u64) -> Value {
             }
         } else if c < 90 {
             json!({"op": "Iter"})
-        } else if c < 96 && has_exp || c < 92 {
+        } else if c < 96 && has_exp || c < 92 || (has_exp && p.max_adv == 1 && rng.chance(1, 3)) {
             json!({"op": "Advance", "d": 1 + rng.below(p.max_adv)})
         } else {
             // a sweep: contains_key over the whole universe
@@ -159,6 +164,32 @@ pub fn profile(name: &str) -> Profile {
             sync_every_op: true,
             p_sync: 100,
             max_adv: 2,
+            far: false,
+        },
+        "unsync-exp" => Profile {
+            kind: "unsync",
+            nkeys: 3,
+            caps: vec![-1, 2, 2, 3],
+            ttls: vec![2, 3, 2, 3, 2, -1],
+            ttis: vec![-1, -1, 3, 2, 2, 2],
+            weights: vec![1, 1, 2],
+            hashers: vec!["id"],
+            sync_every_op: false,
+            p_sync: 0,
+            max_adv: 1,
+            far: false,
+        },
+        "sync-exp" => Profile {
+            kind: "sync",
+            nkeys: 3,
+            caps: vec![-1, 2, 2, 3],
+            ttls: vec![2, 3, 2, 3, 2, -1],
+            ttis: vec![-1, -1, 3, 2, 2, 2],
+            weights: vec![1, 1, 2],
+            hashers: vec!["id"],
+            sync_every_op: false,
+            p_sync: 40,
+            max_adv: 1,
             far: false,
         },
         "sync-far" => Profile {
@@ -328,17 +359,14 @@ fn gen_batch(kind: &str, count: u64, seed: u64) {
         if kind == "sync" {
             ops.push(json!({"op": "Sync"}));
         }
-        // some entries are read on the way: they move to the recent end
-        ops.push(json!({"op": "Advance", "d": 1}));
-        for _ in 0..4 {
-            ops.push(json!({"op": "Get", "k": 1 + rng.below(n as u64)}));
-        }
-        let dead = [ttl, tti].iter().cloned().filter(|d| *d >= 0).min().unwrap() as u64 + 1;
+        // land exactly on the earlier of the two deadlines: only that policy has expired
+        let dead = [ttl, tti].iter().cloned().filter(|d| *d >= 0).min().unwrap() as u64;
         ops.push(json!({"op": "Advance", "d": dead}));
-        // the first lookups after the deadline, most of them at the recent end of the queues
-        for _ in 0..10 {
-            let k = if rng.chance(3, 4) { n - rng.below(25) as u32 } else { 1 + rng.below(n as u64) as u32 };
-            let op = if rng.chance(1, 2) { "Contains" } else { "Get" };
+        // the first lookups after the deadline (only the first finds entries expired but not yet
+        // swept), at the recent end of the queues
+        for j in 0..6 {
+            let k = if j == 0 || rng.chance(3, 4) { n - rng.below(25) as u32 } else { 1 + rng.below(n as u64) as u32 };
+            let op = if (id + j) % 2 == 0 { "Contains" } else { "Get" };
             ops.push(json!({"op": op, "k": k}));
         }
         ops.push(json!({"op": "Iter"}));
